@@ -31,7 +31,7 @@ SEQ = {
     "C02": dict(focus=["kv"], classes=["kv"], profiles=["mixed", "binary", "layers", "fanout", "drain", "long", "splitpoint"]),
     "C03": dict(focus=["scan"], classes=["scan"], profiles=["layers", "mixed", "binary", "fanout", "long"]),
     "C05": dict(focus=["scannv", "getnv", "dump", "phantom"], classes=["scannv", "getnv", "phantom"], profiles=["layers", "mixed", "fanout", "binary"]),
-    "C08": dict(focus=["dump", "walker"], classes=["walker", "kv", "scan", "iscan"], profiles=["fanout", "drain", "layers", "mixed", "binary", "splitpoint"]),
+    "C08": dict(focus=["dump", "walker", "shape"], classes=["walker", "kv", "scan", "iscan"], profiles=["fanout", "drain", "layers", "mixed", "binary", "splitpoint"]),
     "C10": dict(focus=["iscan"], classes=["iscan"], profiles=["layers", "mixed", "binary", "fanout", "long"]),
     "C11": dict(focus=["balance"], classes=["balance"], profiles=["mixed", "drain", "layers", "long", "cycles"]),
     "C16": dict(focus=["session", "storage", "balance"], classes=["cycle", "session", "storage", "balance", "kv"], profiles=["cycles"]),
